@@ -4,5 +4,5 @@ wt="$1"; shift
 for v in A B; do
   [ -f "$wt/mutant_$v.diff" ] || { echo "== $v: no diff"; continue; }
   echo "=== $(basename $wt) $v: $(grep '^+++ ' $wt/mutant_$v.diff | cut -c7- | tr '\n' ' ')"
-  "$(dirname "$0")/try_mutant.sh" "$wt/mutant_$v.diff" quick "$@" 2>&1 | grep -E "DETECTED|bucket=|rc=|patch failed" | cut -c1-230
+  "$(dirname "$0")/try_mutant.sh" "$wt/mutant_$v.diff" quick "$@" 2>&1 | grep -E "DETECTED|bucket=|rc=|patch failed|harness error" | cut -c1-230
 done
